@@ -126,6 +126,7 @@ template<class V> static void run(const VpCase* c, VpOutcome* o) {
     {
         RoundGuard g(mode);
         before = FpEnv::take();
+        poison_below(al[0] ^ f);
         if (scalar) { T x = elem<T>::from_bits(al[0]), y; do_sc<T>(f, &x, &y); got[0] = elem<T>::to_bits(y); }
         else { V a = mk<V>(al), r = a; do_vec<V>(f, &a, &r); rd<V>(r, got); }
         after = FpEnv::take();
